@@ -46,6 +46,8 @@ var (
 	reVarUint = regexp.MustCompile(`^VarUInteger(\d+)$`)
 )
 
+var nonEmptyLists = map[string]bool{"wallet.W5ExtendedActions": true, "abi.W5ExtendedActions": true}
+
 // Gen builds in-domain values of registry types by reflection.
 type Gen struct {
 	R        *mon.Rng
@@ -422,6 +424,10 @@ func (g *Gen) fill(v reflect.Value, tag string, depth int) {
 			// fall through to the generic struct rule (their codecs decide)
 		}
 	}
+	if fn := envelopes[t]; fn != nil {
+		fn(g, v, depth)
+		return
+	}
 	if t.ConvertibleTo(tBigInt) && t.Kind() == reflect.Struct && t != tBigInt {
 		setBig(v, g.bigUint(64))
 		return
@@ -476,6 +482,9 @@ func (g *Gen) fill(v reflect.Value, tag string, depth int) {
 		if deep {
 			n = 0
 		}
+		if nonEmptyLists[t.String()] && n == 0 {
+			n = 1 // the TL-B list has no empty form; absence is expressed by the enclosing Maybe
+		}
 		s := reflect.MakeSlice(t, n, n)
 		for i := 0; i < n; i++ {
 			g.fill(s.Index(i), "", depth+1)
@@ -503,6 +512,9 @@ func (g *Gen) fill(v reflect.Value, tag string, depth int) {
 				continue
 			}
 			g.fill(v.Field(i), f.Tag.Get("tlb"), depth+1)
+		}
+		if fx := fixups[t]; fx != nil {
+			fx(g, v)
 		}
 	case reflect.Interface, reflect.Map, reflect.Func, reflect.Chan:
 		// left zero
